@@ -82,6 +82,7 @@ def scenarios(tier, seed):
     out["hs|quantum"] = {"script": "hs_only", "cfg": {"quantum": True, "chain": "chain2"}}
     out["hs|v2"] = {"script": "hs_only", "cfg": {"version": V2, "chain": "bigchain"}}
     out["hs|retry"] = {"script": "hs_only", "cfg": {"retry": True, "chain": "bigchain"}}
+    out["hs|compat"] = {"script": "hs_only", "cfg": {"version": V1, "c_supported": [V2, V1], "s_supported": [V2, V1], "chain": "bigchain"}}
     if tier == "thorough":
         for c in grid:
             for s in grid:
